@@ -4,12 +4,15 @@
 package main
 
 import (
+	"encoding/json"
 	"flag"
 	"fmt"
 	"os"
 	"path/filepath"
 	"regexp"
+	"runtime/debug"
 	"runtime/pprof"
+	"sort"
 	"strconv"
 	"strings"
 	"time"
@@ -17,6 +20,7 @@ import (
 	"verif/checker/internal/core"
 	"verif/checker/internal/load"
 	"verif/checker/internal/rules"
+	"verif/checker/internal/udiff"
 )
 
 func main() {
@@ -94,6 +98,9 @@ func main() {
 	selfFail := false
 	if *tier == "thorough" {
 		selfFail = runControls(*repo, *prop, pr, res)
+		if runRefactorings(*repo, *verif, *prop, pr, res) {
+			selfFail = true
+		}
 	}
 	code := res.Finish(*verif, known)
 	if selfFail && code == 0 {
@@ -217,6 +224,119 @@ func runControls(repo, prop string, pr *rules.Prop, res *core.Result) bool {
 	res.Extra["clean_variants_applied"] = nc
 	res.Extra["clean_variants_silent"] = dc
 	fmt.Printf("%s controls: %d applied, %d detected, %d skipped; behaviour-preserving variants: %d applied, %d silent\n", prop, n, d, sk, nc, dc)
+	return fail
+}
+
+// runRefactorings re-creates, in memory, every stored behaviour-preserving refactoring
+// (/verif/refactorings/<id>/patch.diff, made by independent agents, each confirmed to build and to keep the
+// pinned test suite green) that touches one of the property's anchor files, on top of the CURRENT content of
+// /repo, and requires the property's rules to report nothing new. Returns true on a false alarm.
+func runRefactorings(repo, verif, prop string, pr *rules.Prop, res *core.Result) bool {
+	type outcome struct {
+		ID, Result string
+		Files      []string
+	}
+	anchors := map[string]bool{}
+	if data, err := os.ReadFile(filepath.Join(verif, "properties.jsonl")); err == nil {
+		for _, line := range strings.Split(string(data), "\n") {
+			var d struct {
+				ID      string `json:"id"`
+				Anchors struct {
+					Files []string `json:"files"`
+				} `json:"anchors"`
+			}
+			if json.Unmarshal([]byte(line), &d) == nil && d.ID == prop {
+				for _, f := range d.Anchors.Files {
+					anchors[f] = true
+				}
+			}
+		}
+	}
+	dirs, _ := filepath.Glob(filepath.Join(verif, "refactorings", "*", "patch.diff"))
+	sort.Strings(dirs)
+	var outs []outcome
+	fail := false
+	base := map[string]bool{}
+	for _, f := range res.Findings {
+		base[f.Key()] = true
+	}
+	n, silent := 0, 0
+	for _, pth := range dirs {
+		id := filepath.Base(filepath.Dir(pth))
+		data, err := os.ReadFile(pth)
+		if err != nil {
+			continue
+		}
+		fps, err := udiff.Parse(string(data))
+		if err != nil {
+			outs = append(outs, outcome{ID: id, Result: "skipped: " + err.Error()})
+			continue
+		}
+		relevant := false
+		var files []string
+		for _, fp := range fps {
+			files = append(files, fp.Path)
+			if anchors[fp.Path] {
+				relevant = true
+			}
+		}
+		if !relevant {
+			continue
+		}
+		overlay := map[string][]byte{}
+		skip := ""
+		for _, fp := range fps {
+			abs := filepath.Join(repo, fp.Path)
+			src, err := os.ReadFile(abs)
+			if err != nil {
+				skip = "file not found: " + fp.Path
+				break
+			}
+			patched, err := udiff.Apply(string(src), fp)
+			if err != nil {
+				skip = err.Error()
+				break
+			}
+			overlay[abs] = []byte(patched)
+		}
+		if skip != "" {
+			outs = append(outs, outcome{ID: id, Files: files, Result: "skipped: " + skip})
+			continue
+		}
+		p, err := load.Load(repo, load.Config{}, overlay)
+		if err != nil {
+			outs = append(outs, outcome{ID: id, Files: files, Result: "skipped: does not type-check on the current tree (" + firstLine(err.Error()) + ")"})
+			continue
+		}
+		c := core.NewCtx(p, prop, "thorough")
+		for _, r := range pr.Rules {
+			rules.RunRule(c, r)
+		}
+		n++
+		var extra []string
+		for _, f := range c.Findings {
+			if !base[f.Key()] {
+				extra = append(extra, "["+f.Rule+"] "+f.Construct+": "+f.What)
+			}
+		}
+		if len(extra) == 0 {
+			silent++
+			outs = append(outs, outcome{ID: id, Files: files, Result: "silent (as required)"})
+		} else {
+			fail = true
+			outs = append(outs, outcome{ID: id, Files: files, Result: "FALSE ALARM: " + firstLine(extra[0])})
+			fmt.Printf("SELFTEST-FAIL behaviour-preserving refactoring %s raised %d finding(s), first: %s\n", id, len(extra), firstLine(extra[0]))
+		}
+		p, c = nil, nil
+		debug.FreeOSMemory()
+	}
+	if res.Extra == nil {
+		res.Extra = map[string]interface{}{}
+	}
+	res.Extra["refactoring_variants"] = outs
+	res.Extra["refactoring_variants_applied"] = n
+	res.Extra["refactoring_variants_silent"] = silent
+	fmt.Printf("%s refactorings: %d applied, %d silent, %d skipped\n", prop, n, silent, len(outs)-n)
 	return fail
 }
 
